@@ -1,6 +1,6 @@
 """C09 — EnumDiscriminants mirrors the enum: same variants, order, repr, discriminants."""
 import copy
-from vlib.defs import Item, Variant, Field, EM, DM, VM, ser, tos, msg, doc, DISABLED
+from vlib.defs import generics_decl, Item, Variant, Field, EM, DM, VM, ser, tos, msg, doc, DISABLED
 from vlib.run import Corpus
 from vlib import structs as T
 from vlib import strings as S
@@ -177,6 +177,12 @@ def build_corpus(tier, rng):
         it = Item("E", [Variant("A", "unit", discr=1), Variant("B", "unit")], repr=rp, dmetas=[DM("name", "Wide")])
         it.repr_form = ["align(4)", rp]
         items.append(("repr-128", it))
+    # the user's enum has INHERENT methods named discriminant / from / into_discriminant of its own
+    for j in range(2):
+        nk = Item("E", [Variant("A", "tuple", [Field("G0")]), Variant("B", "unit"), Variant("Cc", "named", [Field("i32", "a")])] if j else [Variant("A", "unit"), Variant("B", "unit", discr=5)],
+                  repr="u8" if not j else None, tparams=j)
+        nk.namesakes = True
+        items.append(("inherent-namesakes", nk))
     items.append(("lifetime", Item("E", [Variant("B", "tuple", [Field("&'l0 str")]), Variant("O", "named", [Field("G0", "x")]), Variant("N", "unit")],
                                    lifetimes=1, tparams=1, where_clause=True)))
     for fam, it in items:
@@ -264,6 +270,11 @@ def render_def(k, it, meta, cfg):
         inner.append("pub fn layout() -> String { format!(\"{}/{},{}/{}\", std::mem::size_of::<%s>(), std::mem::size_of::<HarnessRef>(), std::mem::align_of::<%s>(), std::mem::align_of::<HarnessRef>()) }" % (dname, dname))
     else:
         inner.append("pub fn layout() -> String { \"0/0,1/1\".to_string() }")
+    if getattr(it, "namesakes", False):
+        # USER-WRITTEN inherent methods on the enum named like what the derive implements / could generate (seed C09_r16): they coexist with the impls
+        g_decl, g_where, g_use = generics_decl(it, bounds)
+        inner.append("impl%s %s%s%s { pub fn discriminant(&self) -> u8 { 200 } pub fn from(_x: u8) -> u8 { 201 } pub fn into_discriminant(&self) -> u8 { 202 } }" % (
+            g_decl, it.ident, g_use, g_where))
     inner.append("pub fn dall() -> Vec<%s> { vec![%s] }" % (dname, ", ".join("%s::%s" % (dname, v.ident) for v in it.variants)))
     inner.append(RR.vals_fn(it, meta["vals"]))
     fieldless = all(v.kind == "unit" for v in it.variants) and it.variants
@@ -276,7 +287,7 @@ def render_def(k, it, meta, cfg):
     intodisc = dvis in (None, "pub")
     conv = ['let e = val(j);', 'let a = didx(%s::from(&e));' % dname]
     if intodisc:
-        conv.append('let b = { use strum::IntoDiscriminant; didx(e.discriminant()) };')
+        conv.append('let b = didx(strum::IntoDiscriminant::discriminant(&e));')      # (a path call: the user's enum may have an inherent `discriminant` of its own)
     else:
         conv.append('let b = a;')
     conv.append('let ev = eval(&e);')
